@@ -158,7 +158,32 @@ def gen_case_points(rng, i) -> dict:
     prof = gen_points(rng, P, n)
     m = typical_mass(rng, P)
     mass = (m * rng.uniform(0.8, 1.2, n)).tolist()
-    return {'stream': 'points', 'engine': eng, 'params': P, 'profile': prof, 'mass': mass}
+    c = {'stream': 'points', 'engine': eng, 'params': P, 'profile': prof, 'mass': mass}
+    if rng.random() < 0.4:
+        c['warmup'] = gen_warmup(rng, prof, mass)
+    return c
+
+
+def gen_warmup(rng, prof: dict, mass) -> dict:
+    """An earlier evaluation on the SAME model object that shares some input arrays bit-for-bit with the case and differs
+    in others: the result of the case must not depend on it (BADA-3 thrust/fuel flow are functions of the current state)."""
+    w = {k: list(v) for k, v in prof.items()}
+    n = len(w['v_tas'])
+    keys = ['v_tas', 'temperature', 'altitude', 'rocd', 'acceleration', 'groundspeed', 'in_cruise']
+    change = [k for k in keys if rng.random() < 0.4] or ['v_tas']
+    for k in change:
+        if k == 'in_cruise':
+            w[k] = [not b for b in w[k]]
+        elif k == 'altitude':
+            w[k] = [float(max(0.0, x + rng.uniform(-800.0, 800.0))) for x in w[k]]
+        elif k == 'temperature':
+            w[k] = [float(x + rng.uniform(-8.0, 8.0)) for x in w[k]]
+        else:
+            w[k] = [float(x * rng.uniform(0.6, 1.5) + rng.uniform(-2.0, 2.0)) for x in w[k]]
+    w['groundspeed'] = [float(max(g, 5.0)) for g in w['groundspeed']]
+    w['v_tas'] = [float(max(v, 30.0)) for v in w['v_tas']]
+    return {'profile': w, 'mass': [float(m * rng.uniform(0.9, 1.1)) for m in mass] if rng.random() < 0.5 else list(mass),
+            'changed': change}
 
 
 def gen_case_update(rng, i) -> dict:
@@ -192,6 +217,8 @@ def gen_case_driver(rng, i) -> dict:
     n_iter = int(rng.choice([0, 1, 1, 2, 2, 3, 4, 6, 10, 10, 12]))
     c = {'stream': 'driver', 'kind': kind, 'engine': eng, 'params': P, 'profile': prof, 'dx': dx, 'n_iter': n_iter,
          'mass': m}
+    if rng.random() < 0.3:
+        c['warmup'] = gen_warmup(rng, prof, [m] * n)
     if kind.startswith('fd_'):
         oew = 0.55 * m
         mpl = 0.25 * m
@@ -236,6 +263,18 @@ def impl_points(c: dict) -> dict:
 
     fm = Bada3FuelBurnModel(make_params(c['params'], c['engine']))
     em = fm.engine_model
+    if c.get('warmup'):
+        wT, wh, wv, wr, wa, wc, wg = arrays(c['warmup']['profile'])
+        wm = np.array(c['warmup']['mass'], dtype=float)
+        try:
+            with np.errstate(all='ignore'):
+                em.calculate_max_climb_thrust(wh, wv, wT)
+                em.calculate_max_cruise_thrust(wh, wv, wT)
+                wt = fm.calculate_thrust(wm, wT, wh, wv, wr, wa, wc)
+                em.calculate_nominal_fuel_flow(wt, wv)
+                fm.calculate_specific_ground_range(wm, wT, wh, wv, wr, wa, wc, wg.copy())
+        except Exception:  # noqa: BLE001
+            pass
     T, h, v, rocd, acc, cr, gs = arrays(c['profile'])
     m = np.array(c['mass'], dtype=float)
     n = len(m)
@@ -293,6 +332,14 @@ def impl_driver(c: dict) -> dict:
     from AEIC.BADA.model import Bada3FuelBurnModel
 
     fm = Bada3FuelBurnModel(make_params(c['params'], c['engine']))
+    if c.get('warmup'):
+        # an earlier flight on the same model object: same altitude/temperature profile, other speeds
+        wT, wh, wv, wr, wa, wc, wg = arrays(c['warmup']['profile'])
+        try:
+            with np.errstate(all='ignore'):
+                fm.iterate_flight_simulation_constant_initial_mass(wT, wh, wv, wr, wa, wc, wg, dx_arg(c['dx']), c['mass'], n_iter=2)
+        except Exception:  # noqa: BLE001
+            pass
     T, h, v, rocd, acc, cr, gs = arrays(c['profile'])
     calls = []
     orig = fm.calculate_specific_ground_range
